@@ -202,7 +202,8 @@ def exposure_view(order):
     ot = order.order_type
     return {
         "status": sname(order.status),
-        "complete": order.complete,
+        # (derived from the status the exchange reports, not from the framework's cached flag)
+        "complete": sname(order.status) in ("EXECUTION_COMPLETE", "EXPIRED", "VIOLATION"),
         "side": order.side,
         "otype": OT[ot.ORDER_TYPE],
         "ladder": getattr(ot, "price_ladder_definition", None),
